@@ -50,6 +50,10 @@ class Inapplicable(Exception):
     """the generated step does not make sense in the current dynamic state (skipped, counted)"""
 
 
+class TooBig(Exception):
+    """the joint dimension outgrew what the harness can reconstruct: the program ends, inconclusive"""
+
+
 def _dims_by_name(s: Snapshot) -> Dict[str, int]:
     return dict(zip(s.names, s.dims))
 
@@ -161,7 +165,12 @@ class Machine:
 
     # -- helpers -----------------------------------------------------------------------
     def snap(self) -> Snapshot:
-        return snapshot(self.w)
+        try:
+            return snapshot(self.w)
+        except Malformed as m:
+            if m.what == "too-big":
+                raise TooBig(m.reason)
+            raise
 
     def live(self, name) -> bool:
         s = self.w.obj[name]
@@ -192,8 +201,6 @@ class Machine:
         try:
             return self.snap()
         except Malformed as m:
-            if m.what == "too-big":
-                raise Inapplicable("too-big")
             tags = sorted(set(list(props) + ["C07", "C13"]))
             raise Tagged(tags, "malformed-after-" + what, m.reason, dict(site, what=m.what))
 
@@ -295,12 +302,19 @@ class Machine:
         post = self.post_snapshot(props, site, "op")
         exp, common, tr = actions.expected_after_op(op, pre, targets, _dims_by_name(post), tdims)
         if raised is not None:
+            if exp is None and tr > 0.0 and "zeros" not in str(raised.exc):
+                raise Tagged(props, "raised", f"{op['type']} via {entry} on {targets} raised {raised}", dict(site, sig=raised.sig()))
             if exp is None:
                 self.labels.append("op-rejected-legitimately")
                 # rejected: nothing may have changed (C17)
                 self.unchanged(pre, post, ["C17"], dict(site, fault="zero-result"))
                 return dict(outcome="rejected", pre=pre, post=post, site=site)
             raise Tagged(props, "raised", f"{op['type']} via {entry} on {targets} raised {raised}", dict(site, sig=raised.sig()))
+        if exp is None and tr > 0.0:
+            # numerically (not exactly) zero result, e.g. 1e-34 of residual population left by an
+            # eigen-decomposition: neither rejection nor application can be demanded
+            self.labels.append("op-result-numerically-zero")
+            raise Inapplicable("numerically-zero result")
         if exp is None:
             raise Tagged(props + ["C17"], "zero-not-rejected", f"{op['type']} on {targets}: ideal result is the zero operator but the call succeeded", site)
         if post.names != pre.names:
@@ -757,21 +771,34 @@ class Machine:
 
 
 class _ScriptForcer:
-    """chooses, for the k-th draw, the (script[k] mod m)-th outcome among the m outcomes of
-    non-zero probability; past the end of the script the real sampler decides"""
+    """chooses, for every draw with at least two outcomes of non-zero probability, the
+    (script[pos] mod m)-th of those m outcomes; a point-mass draw returns its only outcome and
+    consumes no script entry (so programs that differ only in whether a deterministic draw is
+    made at all stay on the same branch). Past the end of the script the real sampler decides,
+    unless TOTAL is set (then the first possible outcome is taken)."""
+
+    TOTAL = False
 
     def __init__(self, script):
         self.script = list(script)
+        self.pos = 0
 
     def choose(self, k: int, p: Optional[np.ndarray], n: int) -> Optional[int]:
-        if k >= len(self.script):
-            return None
         if p is None:
-            return int(self.script[k]) % n
-        nz = [i for i in range(len(p)) if p[i] / max(np.sum(p), 1e-300) > 1e-9]
+            if self.pos < len(self.script):
+                self.pos += 1
+                return int(self.script[self.pos - 1]) % n
+            return 0 if self.TOTAL else None
+        tot = max(float(np.sum(p)), 1e-300)
+        nz = [i for i in range(len(p)) if p[i] / tot > 1e-9]
         if not nz:
             return None
-        return nz[int(self.script[k]) % len(nz)]
+        if len(nz) == 1:
+            return nz[0]
+        if self.pos < len(self.script):
+            self.pos += 1
+            return nz[int(self.script[self.pos - 1]) % len(nz)]
+        return nz[0] if self.TOTAL else None
 
 
 # ----------------------------------------------------------------------------------------
